@@ -147,7 +147,7 @@ def with_stop(base, one_in=5):
         # prefer a bus some handler is registered on / this actor dispatched to, so that the stop often lands on a busy bus
         used = [op[1] for op in actors[ai][:pos] if op[0] in ('disp', 'burst')] + [h['bus'] for h in sc['handlers']]
         bus = draw(st.sampled_from(used)) if used and draw(st.integers(0, 3)) else draw(st.integers(0, len(sc['buses']) - 1))
-        ins = ([['sleep', pre]] if pre is not None else []) + [['stop', bus, draw(st.sampled_from([None, None, 0, 0.05, 0.25])), False]]
+        ins = ([['sleep', pre]] if pre is not None else []) + [['stop', bus, draw(st.sampled_from([None, None, 0, 0.05, 0.25])), draw(st.integers(0, 3)) == 0]]
         actors[ai] = actors[ai][:pos] + ins + actors[ai][pos:]
         sc['actors'] = actors
         sc['stops'] = True
